@@ -153,7 +153,7 @@ def intAttrKeysOf : String → List Str
 def shapeOK (sh : String × String × List Str) : Bool :=
   let avail := sh.2.2 ++ attrKeysOf sh.1 ++ elemKeys
   match messageOf Flatland.Generated.C16.builtinMessages sh.1 sh.2.1 with
-  | some (.plain t) => formKeysIn avail t
+  | some (.plain t) => formKeysIn avail t && !t.isEmpty
   | some (.plural s p k) =>
     formKeysIn avail s && formKeysIn avail p && (intAttrKeysOf sh.1).contains k &&
       !sh.2.2.contains k
@@ -214,7 +214,22 @@ theorem envOf_targets (v : V) (e : View) (info : List (Str × Val)) :
 theorem envOf_supplies (v : V) (e : View) (info : List (Str × Val)) (k : Str)
     (h : k ∈ info.map (·.1) ++ attrKeysOf v.className ++ elemKeys) :
     (rawLookup (envOf v e info).targets k).isSome = true := by
-  rw [envOf_targets, Flatland.C16.Proofs.priority_partial _ _ _ _ k rfl rfl]
+  by_cases hk : (kwTarget info).attr k = none
+  case neg =>
+    -- the keyword dict itself answers (one of its method names): still defined
+    have hget : ((kwTarget info).get k).isSome = true := by
+      simp only [Target.get]
+      cases (kwTarget info).item k with
+      | some x => rfl
+      | none =>
+        cases hh : (kwTarget info).attr k with
+        | none => exact absurd hh hk
+        | some x => rfl
+    simp only [envOf, rawLookup, List.findSome?]
+    cases hg : (kwTarget info).get k with
+    | none => rw [hg] at hget; cases hget
+    | some x => rfl
+  rw [envOf_targets, Flatland.C16.Proofs.priority_partial _ _ _ _ k hk rfl rfl]
   simp only [Spec.lookup, Spec.Sources.ordered, Flatland.C16.Proofs.sourcesOf, List.findSome?]
   simp only [List.mem_append] at h
   rcases h with (h | h) | h
@@ -246,28 +261,38 @@ theorem envOf_supplies (v : V) (e : View) (info : List (Str × Val)) (k : Str)
         | some x => rfl
 
 
+theorem int_keys_not_methods (cls : String) (k : Str) (h : k ∈ intAttrKeysOf cls) :
+    k ∉ dictMethodNames := by
+  unfold intAttrKeysOf at h
+  split at h <;> simp at h
+  all_goals (first | (subst h; decide) | (rcases h with rfl | rfl <;> decide))
+
 theorem count_lookup (v : V) (e : View) (info : List (Str × Val)) (k : Str)
     (hint : k ∈ intAttrKeysOf v.className) (hinfo : k ∉ info.map (·.1)) :
     ∃ i, rawLookup (envOf v e info).targets k = some (.int i) := by
   obtain ⟨i, hi⟩ := int_attr v k hint
   refine ⟨i, ?_⟩
-  rw [envOf_targets, Flatland.C16.Proofs.priority_partial _ _ _ _ k rfl rfl]
+  rw [envOf_targets, Flatland.C16.Proofs.priority_partial _ _ _ _ k
+    (Flatland.C16.Proofs.kwTarget_attr_none info k (int_keys_not_methods _ k hint)) rfl rfl]
   simp only [Spec.lookup, Spec.Sources.ordered, Flatland.C16.Proofs.sourcesOf, List.findSome?,
     lookup_none_of_not_mem info k hinfo, Target.attr, hi]
 
-theorem noteError_ok (env : Env) (errors : List Str) (msg : Msg) (s : Str)
-    (hx : expandMessage env msg = .ok s) : ∃ errs, noteError env errors msg = .ok errs := by
+theorem noteError_truthy (env : Env) (errors : List Str) (msg : Msg) (s : Str)
+    (ht : msg.truthy = true) (hx : expandMessage env msg = .ok s) :
+    noteError env errors msg = .ok (addError errors s) := by
   unfold noteError
-  split
-  · exact ⟨addError errors s, by simp only [hx, bind, Except.bind, pure, Except.pure]⟩
-  · exact ⟨_, rfl⟩
+  simp only [ht, Bool.or_true, if_true, hx, bind, Except.bind, pure, Except.pure]
 
 /-- **messages_total**: whenever a validator of the model returns a false verdict, the run
-    completes — the message attribute exists in the regenerated template table and expands
-    without error in the model's lookup environment — so the failure is always explained. -/
+    completes: the message attribute exists in the regenerated template table, is not empty,
+    and expands without error in the model's lookup environment; the error list afterwards is
+    the old one with that one expanded text added (`add_error`: unless it is already there). -/
 theorem messages_total (v : V) (e : View) (errors : List Str) (b : Bool) (n : Note)
     (hv : verdict v e = .ok (b, some n)) :
-    ∃ o, run v e errors = .ok o ∧ o.verdict = b := by
+    ∃ o msg s, messageOf Flatland.Generated.C16.builtinMessages v.className n.key = some msg ∧
+      expandMessage (envOf v e n.info) msg = .ok s ∧
+      run v e errors = .ok o ∧ o.verdict = b ∧ o.value = valueAfter v e ∧
+      o.errors = addError errors s := by
   have hshape := verdict_shape v e b n hv
   have hok := shapes_ok
   rw [List.all_eq_true] at hok
@@ -283,8 +308,8 @@ theorem messages_total (v : V) (e : View) (errors : List Str) (b : Bool) (n : No
     rw [hm] at hsh
     cases msg with
     | plain t =>
-      simp only at hsh
-      obtain ⟨s, hs⟩ := Flatland.C16.Proofs.formKeysIn_expands _ t hsh
+      simp only [Bool.and_eq_true, Bool.not_eq_true'] at hsh
+      obtain ⟨s, hs⟩ := Flatland.C16.Proofs.formKeysIn_expands _ t hsh.1
         (envOf v e n.info).targets none hsup
       have hx : expandMessage (envOf v e n.info) (.plain t) = .ok s := by
         unfold expandMessage
@@ -292,9 +317,10 @@ theorem messages_total (v : V) (e : View) (errors : List Str) (b : Bool) (n : No
             (envOf v e n.info).uBuiltin = .ok none := rfl
         simp only [this, bind, Except.bind, chooseMessage]
         exact hs
-      obtain ⟨errs, he⟩ := noteError_ok (envOf v e n.info) errors _ s hx
+      have ht : (Msg.plain t).truthy = true := by simp [Msg.truthy, hsh.2]
+      have he := noteError_truthy (envOf v e n.info) errors _ s ht hx
       simp only [he]
-      exact ⟨_, rfl, rfl⟩
+      exact ⟨_, _, s, rfl, hx, rfl, rfl, rfl, rfl⟩
     | plural sg pl k =>
       simp only [Bool.and_eq_true, Bool.not_eq_true', List.contains_eq_mem,
         decide_eq_true_eq, decide_eq_false_iff_not] at hsh
@@ -317,8 +343,8 @@ theorem messages_total (v : V) (e : View) (errors : List Str) (b : Bool) (n : No
         · exact ⟨s1, hs1⟩
         · exact ⟨s2, hs2⟩
       obtain ⟨s, hx⟩ := hx
-      obtain ⟨errs, he⟩ := noteError_ok (envOf v e n.info) errors _ s hx
+      have he := noteError_truthy (envOf v e n.info) errors (.plural sg pl k) s rfl hx
       simp only [he]
-      exact ⟨_, rfl, rfl⟩
+      exact ⟨_, _, s, rfl, hx, rfl, rfl, rfl, rfl⟩
 
 end Flatland.C15.Proofs
